@@ -337,7 +337,7 @@ def gen_specs(rng: random.Random, tier: str, n: int) -> list[dict]:
     specs = []
     cfgs = []
     for _ in range(n_cfg):
-        T = _ds.rand_cfgspec(rng, max_n=6, max_mazes=8, filters=True, rich_endpoints=rng.random() < 0.3)
+        T = _ds.rand_cfgspec(rng, max_n=6, max_mazes=8, filters=True, rich_endpoints=rng.random() < 0.3, big_mazes=0.06)
         T["applied_filters"] = [f for f in T["applied_filters"]]
         cfgs.append(T)
     for T in cfgs:
